@@ -222,3 +222,87 @@ func VerifC18Routing() {
 	}
 	symAssert(c.Err() != nil, "the read loop ends with the stream's error")
 }
+
+// verifUnmarshalScalar stands in for encoding/json.Unmarshal under symgo (the reflective decoder
+// is outside the engine) for the two targets ID.UnmarshalJSON uses: *int32 takes a JSON integer,
+// *string a JSON string without escapes; anything else is a type error, as in encoding/json.
+func verifUnmarshalScalar(data []byte, v any) error {
+	switch p := v.(type) {
+	case *int32:
+		i, neg := 0, false
+		if i < len(data) && data[i] == '-' {
+			neg = true
+			i++
+		}
+		if i >= len(data) || (data[i] == '0' && i+1 < len(data)) {
+			return verifErrJSON
+		}
+		n := int64(0)
+		for ; i < len(data); i++ {
+			if data[i] < '0' || data[i] > '9' {
+				return verifErrJSON
+			}
+			n = n*10 + int64(data[i]-'0')
+		}
+		if neg {
+			n = -n
+		}
+		*p = int32(n)
+		return nil
+	case *string:
+		if len(data) < 2 || data[0] != '"' || data[len(data)-1] != '"' {
+			return verifErrJSON
+		}
+		*p = string(data[1 : len(data)-1])
+		return nil
+	}
+	return verifErrJSON
+}
+
+var verifErrJSON = errJSONStub{}
+
+type errJSONStub struct{}
+
+func (errJSONStub) Error() string { return "json: cannot unmarshal" }
+
+// VerifC18IDCodec: an id read from the wire keeps its kind and its text - a string id stays a
+// string id whatever characters it is made of (digits included), a number id a number - and is
+// written back byte for byte; ids of different kinds never compare equal.
+func VerifC18IDCodec() {
+	var data []byte
+	isString := symBool("string")
+	var text string
+	if isString {
+		text = symString("name", symParam("N"))
+		symAssume(len(text) >= 1)
+		for i := 0; i < len(text); i++ {
+			c := text[i]
+			symAssume((c >= '0' && c <= '9') || (c >= 'a' && c <= 'z') || c == '-')
+		}
+		data = []byte(`"` + text + `"`)
+	} else {
+		text = symString("num", symParam("NUM"))
+		symAssume(len(text) >= 1)
+		for i := 0; i < len(text); i++ {
+			c := text[i]
+			symAssume((c >= '0' && c <= '9') || (i == 0 && c == '-' && len(text) > 1))
+		}
+		symAssume(!(text[0] == '0' && len(text) > 1) && !(text[0] == '-' && text[1] == '0'))
+		data = []byte(text)
+	}
+	var id ID
+	err := id.UnmarshalJSON(data)
+	symCover("decoded")
+	symAssert(err == nil, "a number or string id decodes")
+	if err != nil {
+		return
+	}
+	if isString {
+		symAssert(id.name == text && id.number == 0, "a string id stays a string id with the same text")
+		symAssert(id != NewNumberID(7) && id != NewNumberID(0), "a string id never equals a number id")
+	} else {
+		symAssert(id.name == "", "a number id stays a number id")
+	}
+	out, err := id.MarshalJSON()
+	symAssert(err == nil && string(out) == string(data), "the id is written back byte for byte")
+}
